@@ -94,6 +94,13 @@ WcStep == /\ E.op = "Cal.WithCalendar"
                 Report(l, E.op, A.from \o "/with-calendar", IF WcChained THEN WcExpected ELSE "session-chain-broken", E.out))
           /\ UNCHANGED <<cur, prev, hi, leaps, edir, hist, last, ids, lens>>
 
+\* PlainDateTime::with_calendar: the ISO date AND the time of day are unchanged, the calendar is the target
+WcDtExpected == Ok([iso |-> IsoOf(cur.n), id |-> Join(Lower(A.to)), time |-> <<12, 34, 56, 789>>])
+WcDtStep == /\ E.op = "Cal.WithCalendarDT"
+            /\ (~(WcChained /\ E.out = WcDtExpected) =>
+                  Report(l, E.op, A.from \o "/with-calendar-datetime", IF WcChained THEN WcDtExpected ELSE "session-chain-broken", E.out))
+            /\ UNCHANGED <<cur, prev, hi, leaps, edir, hist, last, ids, lens>>
+
 (* ---------------- Cal.Id ---------------- *)
 Accepted1(o) == o.kind = "ok"
 Clean(o) == o.kind \in {"ok", "range", "type", "syntax"}
@@ -119,7 +126,7 @@ TInit == /\ l = 1 /\ cur = Nil /\ prev = Nil /\ hi = 0 /\ leaps = 0 /\ edir = 0 
          /\ ids = Empty /\ lens = Empty
 Reset == /\ E.op = "reset" /\ cur' = Nil /\ last' = None /\ leaps' = 0 /\ edir' = 0
          /\ UNCHANGED <<prev, hi, hist, ids, lens>>
-TNext == l <= NEv /\ l' = l + 1 /\ (Reset \/ DayStep \/ RebuildStep \/ WcStep \/ IdStep)
+TNext == l <= NEv /\ l' = l + 1 /\ (Reset \/ DayStep \/ RebuildStep \/ WcStep \/ WcDtStep \/ IdStep)
 TSpec == TInit /\ [][TNext]_tvars
 
 \* evaluated at every step: the current day is an in-range ISO day
